@@ -19,7 +19,8 @@ Streams
   setattr-delattr      `setattr` / `delattr` on every field of every class (and on a non-field name)
   histories            random histories of hash / == / != / in / dict insert / dict lookup / copies
                        (`dataclasses.replace`, re-construction from `__getinitargs__`, a rebuilding
-                       mapper) / IdentityMapper / rebuild / pickle round trip / setattr / delattr on
+                       mapper, `copy.copy`; `copy.deepcopy` = the model's rebuild) / IdentityMapper /
+                       rebuild / pickle round trip / setattr / delattr on
                        a pool of objects: every answer and the `_hash_value` slot pattern after every
                        step vs the Lean history model
   interpreter-modes    two worker processes (default mode, `python -O`; harness/c01_worker.py):
@@ -28,6 +29,21 @@ Streams
                        histories under -O (a rebinding that goes through and the stale cached hash
                        it leaves; random ones without rebinding) vs `run1D … false`; `==` / `!=` /
                        hash equality and the hash VALUES of untouched objects agree between the modes
+  cross-process-hash   (oracle only) the second-process leg of the histories: a history runs here
+                       (objects hashed whole, through `==` / dict use, at ONE sub-node only, or never;
+                       copies, in-process pickle round trips), then pool objects are pickled with every
+                       protocol and read by a persistent reader process under a DIFFERENT
+                       PYTHONHASHSEED (harness/c01_xworker.py; thorough: a second one under a third
+                       seed and -O), which rebuilds the tree from the source S-expression and reports
+                       `==` / `!=` / hash equality / dict and set membership both ways and which
+                       `_hash_value` slots arrived; the reader's own hashed tree comes back as a pickle
+                       and is judged here the same way.  Every class of the table (stock, user
+                       decorated / legacy / mixed; Polynomial / Rational pickles cannot be loaded at all)
+  copies-after-hash    (oracle only) `copy.copy` / `copy.deepcopy` / `dataclasses.replace` (also with
+                       one field changed) / init-args re-construction / in-process pickle round trips
+                       of objects hashed before: the copy is its source's equal (or, with a changed
+                       field, the equal of a fresh build with that field), never carries a hash that
+                       is not the hash of its fields, and leaves the original alone
 
 Oracles (independent of the code under test): `harness/c01_classes.struct_eq` is the property's own
 sentence ("same node class and pairwise-equal fields") written with `type(a) is type(b)` and
@@ -37,6 +53,8 @@ change; rebinding attempts raise.
 """
 from __future__ import annotations
 
+import base64
+import copy
 import dataclasses
 import json
 import pickle
@@ -46,6 +64,7 @@ from collections.abc import Mapping
 import pymbolic.primitives as p
 
 from .. import c01_classes as C
+from .. import c01_xworker as XW
 from ..core import Failure, Prop, Stream
 from ..gen import ExprGen
 from ..sexp import A, Atom, dumps, expr_to_sx, loads, sx_to_expr
@@ -1024,6 +1043,12 @@ class Hist:
                 n = dataclasses.replace(o)
             elif op[2] == "initargs":
                 n = type(o)(*o.__getinitargs__())
+            elif op[2] == "shallow":
+                n = copy.copy(o)
+            elif op[2] == "deep":
+                # every node is new: the model's `rebuild`
+                P.append(copy.deepcopy(o))
+                return f"(rebuilt {self.bits(len(P) - 1)})"
             else:
                 n = VarCopyMapper.get()(o)
             if n is o:
@@ -1066,7 +1091,7 @@ class Hist:
 
 def op_req(op):
     if op[0] == "copy":
-        return f"(copy {op[1]})"
+        return f"(rebuild {op[1]})" if op[2] == "deep" else f"(copy {op[1]})"
     if op[0] == "setattr":
         return f'(setattr {op[1]} "{op[2]}" {op[3]})'
     if op[0] == "delattr":
@@ -1215,7 +1240,7 @@ def gen_history(rng, g, maxlen):
         elif k < 0.72:
             if n >= 10:
                 continue
-            kinds = ["initargs"]
+            kinds = ["initargs", "shallow", "deep"]
             if C.kind_of(type(o)) == "dataclass":
                 kinds.append("replace")
             if stock_only(o) and C.struct_eq(try_map(VarCopyMapper.get(), o), o):
@@ -1679,6 +1704,665 @@ class ModeStream(Stream):
 # }}}
 
 
+# {{{ second-process leg: pickles written here, read under another string-hash seed (and back)
+
+def worker_env(hashseed):
+    """environment of a C01 worker process: this copy of the framework first on PYTHONPATH, the
+    given PYTHONHASHSEED"""
+    import os
+
+    from ..leanio import VERIF
+    pp = os.pathsep.join([VERIF] + [x for x in os.environ.get("PYTHONPATH", "").split(os.pathsep)
+                                    if x and x != VERIF])
+    return {"PYTHONHASHSEED": str(hashseed), "PYTHONPATH": pp,
+            "PATH": os.environ.get("PATH", "/usr/bin:/bin"), "HOME": os.environ.get("HOME", "/tmp")}
+
+
+def other_hash_seeds():
+    """two PYTHONHASHSEED values that differ from this process's (fixed: the run is deterministic)"""
+    import os
+    mine = os.environ.get("PYTHONHASHSEED", "random")
+    return [s for s in ("1", "2", "3") if s != mine][:2]
+
+
+class Reader:
+    """one persistent reader process (harness/c01_xworker.py): a request line in, a reply line out"""
+
+    def __init__(self, hashseed, optimized):
+        import subprocess
+        import sys
+
+        from ..leanio import VERIF
+        self.cfg = f"PYTHONHASHSEED={hashseed}{' -O' if optimized else ''}"
+        cmd = [sys.executable] + (["-O"] if optimized else []) + ["-m", "harness.c01_xworker"]
+        import tempfile
+        self.errfile = tempfile.TemporaryFile(mode="w+")       # no pipe that could fill up
+        self.proc = subprocess.Popen(cmd, env=worker_env(hashseed), cwd=VERIF, stdin=subprocess.PIPE,
+                                     stdout=subprocess.PIPE, stderr=self.errfile, text=True)
+        hello = self._readline()
+        if hello["hash_probe"] == hash(XW.HASH_PROBE):
+            raise RuntimeError(f"c01 reader {self.cfg} has the string-hash seed of this process")
+        if hello["debug"] == optimized:
+            raise RuntimeError(f"c01 reader {self.cfg} did not start in the requested mode")
+
+    def _readline(self):
+        line = self.proc.stdout.readline()
+        if not line:
+            err = ""
+            try:
+                self.proc.wait(timeout=5)
+                self.errfile.seek(0)
+                err = self.errfile.read()[-1500:]
+            except Exception:       # noqa: BLE001
+                pass
+            raise RuntimeError(f"c01 reader {self.cfg} ended: {err}")
+        return json.loads(line)
+
+    def ask(self, rq):
+        self.proc.stdin.write(json.dumps(rq) + "\n")
+        self.proc.stdin.flush()
+        res = self._readline()
+        if "worker_error" in res:
+            raise RuntimeError(f"c01 reader {self.cfg}: {res['worker_error']}")
+        return res
+
+    def close(self):
+        try:
+            self.proc.stdin.close()
+            self.proc.wait(timeout=10)
+        except Exception:       # noqa: BLE001
+            self.proc.kill()
+        for f in (self.proc.stdout, self.errfile):
+            try:
+                f.close()
+            except Exception:       # noqa: BLE001
+                pass
+
+
+class Readers:
+    """the reader processes of a run: one under another PYTHONHASHSEED (quick), a second one under
+    a third seed and `python -O` in the thorough tier; started on first use, closed at exit"""
+
+    def __init__(self):
+        self.tier = "quick"
+        self.live = None
+        self.cache = {}
+        self.launches = 0
+
+    def reset(self, tier):
+        if tier != self.tier:
+            self.close()
+        self.tier = tier
+        self.cache = {}
+
+    def get(self):
+        if self.live is None:
+            import atexit
+            seeds = other_hash_seeds()
+            cfgs = [(seeds[0], False)] + ([(seeds[1], True)] if self.tier == "thorough" else [])
+            self.live = [Reader(s, o) for s, o in cfgs]
+            self.launches += len(self.live)
+            atexit.register(self.close)
+        return self.live
+
+    def close(self):
+        for r in self.live or []:
+            r.close()
+        self.live = None
+
+
+READERS = Readers()
+
+
+def sub_expressions(o):
+    """the Expression instances strictly below `o`, preorder"""
+    out = []
+
+    def rec(v, top):
+        if isinstance(v, p.Expression):
+            if not top:
+                out.append(v)
+            for c in C.fields_of(v):
+                rec(c, False)
+        elif isinstance(v, (tuple, list)):
+            for c in v:
+                rec(c, False)
+        elif isinstance(v, Mapping):
+            for c in v.values():
+                rec(c, False)
+
+    rec(o, True)
+    return out
+
+
+class XHist(Hist):
+    """`Hist` plus `["subhash", i, k]`: hash only the k-th node strictly below pool object i"""
+
+    def step(self, op):
+        if op[0] == "subhash":
+            subs = sub_expressions(self.pool[op[1]])
+            if subs:
+                hash(subs[op[2] % len(subs)])
+            return "(subhash)"
+        return super().step(op)
+
+
+def strip_rebinding(pool, ops):
+    """the history without its setattr / delattr attempts (a rebinding that goes through leaves a
+    stale hash in THIS process: the known findings `…-fields-rebindable`, reported elsewhere)"""
+    ops = [op for op in ops if op[0] not in ("setattr", "delattr")]
+    return ops if valid_history(pool, ops) else None
+
+
+def pool_size_after(pool, ops):
+    n = len(pool)
+    for op in ops:
+        if op[0] in ("unpickle", "copy", "rebuild"):
+            n += 1
+    return n
+
+
+class CrossProcessStream(Stream):
+    """A history runs HERE (hash / == / dict / copies / pickle round trips / hashing of a sub-node
+    only, or nothing at all); then chosen pool objects are pickled (every protocol) and handed,
+    with their source S-expression, to a reader process running under a DIFFERENT string-hash
+    seed, which loads them, builds the same tree from source, and reports `==` / `!=` / hash
+    equality / dict and set membership in both directions and which `_hash_value` slots arrived
+    (harness/c01_xworker.py: `facts`).  The reader hashes its own tree and sends a pickle back:
+    the same facts are taken in this process for the opposite direction.
+
+    Oracle: the property's words only -- a loaded node has the class and fields of its source, so it
+    is equal to the structurally identical local tree (both ways, `!=` false), hashes equal, and
+    either finds the other as dict / set key.  Keys: `pickled-hash-stale:<class>` (the innermost
+    node that arrived with a cached hash differing from its local counterpart's hash),
+    `pickled-hash-differs:<class>`, `pickled-not-interchangeable:<class>`,
+    `pickled-fields-differ:<class>`.  That a cached hash travels is recorded (stats), not demanded
+    against: only its being observable is a violation."""
+    name = "cross-process-hash"
+    has_model = False
+
+    MODES = ("none", "hash", "sub", "eq", "key", "shallow", "deep", "roundtrip")
+
+    def directed(self, s, mode, rng, protos):
+        k = rng.randrange(64)
+        if mode == "none":
+            return {"pool": [s], "ops": [], "dump": [[0, q] for q in protos]}
+        if mode == "hash":
+            return {"pool": [s], "ops": [["hash", 0]], "dump": [[0, q] for q in protos]}
+        if mode == "sub":
+            return {"pool": [s], "ops": [["subhash", 0, k]], "dump": [[0, q] for q in protos]}
+        if mode == "eq":
+            return {"pool": [s, s], "ops": [["eq", 0, 1]], "dump": [[k % 2, q] for q in protos]}
+        if mode == "key":
+            return {"pool": [s, s], "ops": [["dset", 0, 1], ["dget", 1]], "dump": [[k % 2, q] for q in protos]}
+        if mode in ("shallow", "deep"):
+            return {"pool": [s], "ops": [["hash", 0], ["copy", 0, mode]], "dump": [[1, q] for q in protos]}
+        return {"pool": [s], "ops": [["hash", 0], ["pickle", 0, protos[0]], ["unpickle", 0], ["subhash", 1, k]],
+                "dump": [[1, q] for q in protos]}
+
+    def cases(self, rng, tier):
+        READERS.reset(tier)
+        allp = list(range(pickle.HIGHEST_PROTOCOL + 1))
+        ws = wrappers()
+        out = []
+        for cls in C.all_expression_classes():
+            inst = instances(cls)
+            if not inst:
+                continue
+            if special_instances(cls) is not None:
+                # Polynomial / Rational and their subclasses: `pickle.loads` of their pickles raises
+                # (Expression.__setstate__ needs init_arg_names): one case each, for the record
+                out.append(self.directed(obj_s(inst[0]), "hash", rng, [rng.choice(allp)]))
+                continue
+            base = obj_s(inst[0])
+            out.append(self.directed(base, "hash", rng, allp))
+            out.append(self.directed(base, "none", rng, allp))
+            n_more = 8 if tier == "quick" else 40
+            for _ in range(n_more):
+                o = rng.choice(inst)
+                if rng.random() < 0.4:
+                    try:
+                        o = rng.choice(ws)(o)
+                    except Exception:       # noqa: BLE001
+                        pass
+                if C.has_nan_const(o) or C.has_list(o):
+                    continue
+                s = dumps(source_variant(rng, C.obj_to_sx(o), 0.3))
+                out.append(self.directed(s, rng.choice(self.MODES), rng, [rng.choice(allp)]))
+        # the random histories of the history stream, then some of their pool objects are pickled
+        n = 120 if tier == "quick" else 2500
+        g = ExprGen(rng, lists=False, foreign=False, cse=0.1, floats=0.05, malformed=0.0)
+        for _ in range(n):
+            h = gen_history(rng, g, 25 if tier == "quick" else 80)
+            ops = strip_rebinding(h["pool"], h["ops"])
+            if ops is None:
+                continue
+            size = len(h["pool"])
+            for _ in range(rng.randint(0, 2)):
+                ops.insert(rng.randint(0, len(ops)), ["subhash", rng.randrange(size), rng.randrange(64)])
+            if not valid_history(h["pool"], ops):
+                continue
+            npool = pool_size_after(h["pool"], ops)
+            dump = [[rng.randrange(npool), rng.choice(allp)] for _ in range(rng.randint(1, 4))]
+            out.append({"pool": h["pool"], "ops": ops, "dump": dump})
+        seen = set()
+        for pl in out:
+            key = json.dumps(pl, sort_keys=True)
+            if key not in seen:
+                seen.add(key)
+                yield pl
+
+    def execute(self, pl):
+        """-> [{"i", "proto", "src", "pre", "there": [facts per reader], "back": [facts | None]}] or
+        {"raises": …} when the history cannot be run here"""
+        h = XHist(pl["pool"])
+        try:
+            for op in pl["ops"]:
+                h.step(op)
+        except Exception as ex:     # noqa: BLE001
+            return {"raises": f"{type(ex).__name__} at {op}"}
+        res = []
+        for i, proto in pl["dump"]:
+            if i >= len(h.pool):
+                continue
+            o = h.pool[i]
+            src, pre = obj_s(o), C.bits(o)
+            try:
+                blob = pickle.dumps(o, proto)
+            except Exception as ex:     # noqa: BLE001
+                res.append({"i": i, "proto": proto, "src": src, "pre": pre, "dump_raises": type(ex).__name__})
+                continue
+            there, back = [], []
+            for rd in READERS.get():
+                r = rd.ask({"src": src, "blob": base64.b64encode(blob).decode(), "proto": proto})
+                b64 = r.pop("back", None)
+                there.append({"cfg": rd.cfg, **r})
+                back.append(None if b64 is None else
+                            {"cfg": rd.cfg, **XW.facts(base64.b64decode(b64), src)})
+            res.append({"i": i, "proto": proto, "src": src, "pre": pre, "there": there, "back": back})
+        return res
+
+    def lookup(self, pl):
+        key = json.dumps({k: v for k, v in pl.items() if k != "dir"}, sort_keys=True)
+        if key not in READERS.cache:
+            READERS.cache[key] = self.execute(pl)
+        return READERS.cache[key]
+
+    def request(self, pl):
+        return "(noop)"
+
+    def run_impl(self, pl):
+        res = self.lookup(pl)
+        if isinstance(res, dict):
+            return f"(history-raises {res['raises']!r})"
+        parts = []
+        for d in res:
+            if "dump_raises" in d:
+                parts.append(f"(dump-raises {d['dump_raises']})")
+                continue
+            for r in d["there"]:
+                if "unpickle" in r:
+                    parts.append(f"(unpickle-{r['unpickle']})")
+                else:
+                    ok = all(v == XW.WANTED[k] for k, v in r["obs"].items())
+                    parts.append(f"(read pre={d['pre']} arrived={r['slots']} {b(ok)})")
+        return "(" + " ".join(parts) + ")"
+
+    def oracle(self, pl):
+        res = self.lookup(pl)
+        if isinstance(res, dict):
+            return Failure("history-raises:" + res["raises"].split(" ")[0], f"in the writing process: {res['raises']}", pl)
+        for d in res:
+            if "dump_raises" in d:
+                continue
+            for side, label in (("there", "written here (slots {pre}), protocol {proto}, read under {cfg}"),
+                                ("back", "written under {cfg} after hashing, protocol {proto}, read here")):
+                if pl.get("dir", side) != side:
+                    continue
+                for r in d[side]:
+                    if r is None:
+                        continue
+                    v = XW.judge(r, label.format(pre=d["pre"], proto=d["proto"], cfg=r["cfg"]))
+                    if v is not None:
+                        return Failure(v[0], f"{d['src']}: {v[1]}", pl)
+        return None
+
+    def shrink(self, pl):
+        if "dir" not in pl:
+            # one direction only (payload key "dir"): first the pickles written here
+            yield {**pl, "dir": "there"}
+            yield {**pl, "dir": "back"}
+            return
+        if len(pl["dump"]) > 1:
+            for d in pl["dump"]:
+                yield {**pl, "dump": [d]}
+            return
+        i = pl["dump"][0][0]
+        ops = pl["ops"]
+        for cut in range(len(ops)):
+            cand = ops[:cut] + ops[cut + 1:]
+            if valid_history(pl["pool"], cand) and pool_size_after(pl["pool"], cand) > i:
+                yield {**pl, "ops": cand}
+        if len(pl["pool"]) > 1 and i < len(pl["pool"]):
+            # only the dumped object and the operations that touch nothing else
+            keep = [op for op in ops if op[0] in ("hash", "subhash", "dset", "dget") and op[1] == i]
+            yield {"pool": [pl["pool"][i]], "ops": [[op[0], 0, *op[2:]] for op in keep],
+                   "dump": [[0, pl["dump"][0][1]]], "dir": pl["dir"]}
+        if len(pl["pool"]) == 1 and i == 0:
+            # a part of the object, with the whole of it hashed / one node below it hashed
+            for x in instance_parts(loads(pl["pool"][0]))[:12]:
+                for ops2 in ([["hash", 0]], [["subhash", 0, 0]]):
+                    yield {"pool": [dumps(x)], "ops": ops2, "dump": pl["dump"], "dir": pl["dir"]}
+
+    def nontrivial_key(self, pl, model, impl):
+        return json.dumps(pl, sort_keys=True) if "(read " in impl else None
+
+    def stats(self, pl, mo, io, acc):
+        res = self.lookup(pl)
+        acc["reader_launches"] = READERS.launches
+        if isinstance(res, dict):
+            acc["history_raises"] = acc.get("history_raises", 0) + 1
+            return
+        cl = acc.setdefault("classes", {})
+        pr = acc.setdefault("protocols", {})
+        un = acc.setdefault("cannot_be_loaded", {})
+        for d in res:
+            if "dump_raises" in d:
+                acc["dump_raises"] = acc.get("dump_raises", 0) + 1
+                continue
+            acc["pickles"] = acc.get("pickles", 0) + 1
+            pr[str(d["proto"])] = pr.get(str(d["proto"]), 0) + 1
+            pre = d["pre"][1:]
+            kind = ("never-hashed" if "1" not in pre else "hashed" if pre[0] == "1" else "sub-nodes-only")
+            acc[kind] = acc.get(kind, 0) + 1
+            name = loads(d["src"])[1]
+            for r in d["there"]:
+                if "unpickle" in r:
+                    un[name] = r["unpickle"]
+                    continue
+                cl[name] = cl.get(name, 0) + 1
+                if "1" in r["slots"]:
+                    acc["cached_hash_travelled"] = acc.get("cached_hash_travelled", 0) + 1
+            acc["read_back_here"] = acc.get("read_back_here", 0) + sum(1 for r in d["back"] if r is not None)
+
+
+def instance_parts(sx):
+    """the instance S-expressions strictly below an object S-expression, preorder"""
+    out = []
+
+    def rec(s, top):
+        if not (isinstance(s, list) and s) or isinstance(s, Atom):
+            return
+        if s[0] == "inst":
+            if not top:
+                out.append(s)
+            for c in s[3]:
+                rec(c, False)
+        elif s[0] in ("tuple", "list"):
+            for c in s[1:]:
+                rec(c, False)
+        elif s[0] == "dict":
+            for c in s[2]:
+                rec(c, False)
+
+    rec(sx, True)
+    return out
+
+# }}}
+
+
+# {{{ copies in this process, taken after hashing
+
+def field_change(rng, o):
+    """(field name, new value) differing from the current value of one top-level field of `o`
+    (mappings excluded), or None"""
+    names = C.field_names_of(type(o))
+    if not names or special_instances(type(o)) is not None:
+        return None
+    vals = C.fields_of(o)
+    order = list(range(len(names)))
+    rng.shuffle(order)
+    for i in order:
+        cands = [w for w in candidates(type(o), names[i], i)
+                 if not isinstance(w, Mapping) and not C.struct_eq(w, vals[i]) and not C.has_list(w)]
+        if cands:
+            return names[i], rng.choice(cands)
+    return None
+
+
+class CopyStream(Stream):
+    """`copy.copy`, `copy.deepcopy`, `dataclasses.replace` (unchanged and with ONE field changed),
+    in-process pickle round trips (every protocol) of an object that was hashed before (whole, one
+    sub-node only, through `==`, or not at all).  Oracle: the copy has the class and fields it was
+    asked to have (the source's; with the changed field for `replace(o, f=v)`), is `==` to a fresh
+    build of those (both ways, `!=` false), hashes like it, finds it and is found by it as dict / set
+    key; a copy of an unchanged object is interchangeable with the original in the same ways, a
+    copy with a changed field is not equal to it; the original keeps its fields and hash.  Keys
+    `copy-stale-hash:<how>:<class>` (the copy started with a cached hash that is not the hash of
+    its fields), `copy-not-equal:…`, `copy-hash-differs:…`, `copy-not-interchangeable:…`,
+    `copy-fields-wrong:…`, `copy-changed-original:…`."""
+    name = "copies-after-hash"
+    has_model = False
+
+    PRE = ("none", "hash", "sub", "eq", "key")
+
+    def cases(self, rng, tier):
+        allp = list(range(pickle.HIGHEST_PROTOCOL + 1))
+        hows = ["shallow", "deep", "replace", "replace-field", "initargs"] + [f"pickle{q}" for q in allp]
+        ws = wrappers()
+        seen = set()
+        n_more = 6 if tier == "quick" else 60
+        for cls in C.all_expression_classes():
+            inst = instances(cls)
+            if not inst:
+                continue
+            todo = [(inst[0], how, "hash") for how in hows]
+            for _ in range(n_more):
+                o = rng.choice(inst)
+                if rng.random() < 0.4:
+                    try:
+                        o = rng.choice(ws)(o)
+                    except Exception:       # noqa: BLE001
+                        pass
+                todo.append((o, rng.choice(hows), rng.choice(self.PRE)))
+            for o, how, pre in todo:
+                if C.has_nan_const(o) or C.has_list(o):
+                    continue
+                if how.startswith("replace") and "_is_expr_dataclass" not in type(o).__dict__:
+                    how = "shallow"
+                pl = {"obj": dumps(source_variant(rng, C.obj_to_sx(o), 0.3)), "pre": pre,
+                      "k": rng.randrange(64), "how": how}
+                if how == "replace-field":
+                    ch = field_change(rng, o)
+                    if ch is None:
+                        pl["how"] = "replace"
+                    else:
+                        pl["field"], pl["value"] = ch[0], obj_s(ch[1])
+                key = json.dumps(pl, sort_keys=True)
+                if key not in seen:
+                    seen.add(key)
+                    yield pl
+
+    @staticmethod
+    def prepare(pl):
+        o = C.sx_to_obj(loads(pl["obj"]))
+        pre = pl["pre"]
+        if pre == "hash":
+            hash(o)
+        elif pre == "sub":
+            subs = sub_expressions(o)
+            if subs:
+                hash(subs[pl["k"] % len(subs)])
+        elif pre == "eq":
+            o == C.sx_to_obj(loads(pl["obj"]))      # noqa: B015
+        elif pre == "key":
+            {o: 1}.get(C.sx_to_obj(loads(pl["obj"])))
+        return o
+
+    @staticmethod
+    def take(pl, o):
+        how = pl["how"]
+        if how == "shallow":
+            return copy.copy(o)
+        if how == "deep":
+            return copy.deepcopy(o)
+        if how == "replace":
+            return dataclasses.replace(o)
+        if how == "replace-field":
+            return dataclasses.replace(o, **{pl["field"]: C.sx_to_obj(loads(pl["value"]))})
+        if how == "initargs":
+            return type(o)(*o.__getinitargs__())
+        return pickle.loads(pickle.dumps(o, int(how[len("pickle"):])))
+
+    @staticmethod
+    def expected_source(pl):
+        """the source of what the copy must be: the object's, with the changed field put in"""
+        sx = loads(pl["obj"])
+        if pl["how"] != "replace-field":
+            return sx
+        o = C.sx_to_obj(sx)
+        names = list(C.field_names_of(type(o)))
+        fs = list(sx[3])
+        fs[names.index(pl["field"])] = loads(pl["value"])
+        return [sx[0], sx[1], sx[2], fs]
+
+    def run_impl(self, pl):
+        try:
+            o = self.prepare(pl)
+            c = self.take(pl, o)
+        except Exception as ex:     # noqa: BLE001
+            return f"(raises {type(ex).__name__})"
+        return f"(copy {C.bits(o)} {C.bits(c)} {b(c is o)})"
+
+    def request(self, pl):
+        return "(noop)"
+
+    def oracle(self, pl):
+        o = self.prepare(pl)
+        cname = type(o).__name__
+        how = pl["how"].rstrip("0123456789")
+        tag = f"{how}:{cname}"
+        before = obj_s(o)
+        try:
+            c = self.take(pl, o)
+        except Exception:       # noqa: BLE001
+            return None         # this kind of copy does not exist for the class: not C01's statement
+        arrived = C.bits(c)     # before any hash call on the copy
+        want_sx = self.expected_source(pl)
+
+        def fresh():
+            return C.sx_to_obj(want_sx)
+
+        f0 = fresh()
+        if type(c) is not type(f0) or not C.struct_eq(c, f0) or obj_s(c) != obj_s(f0):
+            return Failure(f"copy-fields-wrong:{tag}", f"{pl}: the copy is {obj_s(c)}, wanted {obj_s(f0)}")
+        changed = pl["how"] == "replace-field"
+        # the copy against a fresh build of its own fields
+        if hash(c) != hash(f0):
+            cul = None
+            pairs = []
+            XW.node_pairs(c, f0, pairs)
+            arrived_bits = arrived[1:]
+            # preorder slot string -> postorder pairs: recompute which nodes carried a slot
+            carried_nodes = carried_set(c, arrived_bits)
+            for un, ln, _ in pairs:
+                if hash(un) != hash(ln):
+                    cul = un
+                    break
+            who = type(cul).__name__ if cul is not None else cname
+            if cul is not None and id(cul) in carried_nodes:
+                return Failure(f"copy-stale-hash:{how}:{who}",
+                               f"{pl}: the copy started with cached hashes ({arrived}); its {who} node hashes "
+                               f"unlike a fresh build of the same fields")
+            return Failure(f"copy-hash-differs:{how}:{who}", f"{pl}: slots of the copy at creation {arrived}")
+        if not (c == fresh()) or not (fresh() == c) or (c != fresh()) or (fresh() != c):
+            return Failure(f"copy-not-equal:{tag}", f"{pl}: against a fresh build of the copy's fields")
+        if (c not in {fresh(): 1} or fresh() not in {c: 1} or c not in {fresh()} or fresh() not in {c}
+                or len({c, fresh()}) != 1):
+            return Failure(f"copy-not-interchangeable:{tag}", f"{pl}: against a fresh build of the copy's fields")
+        # the copy against the original
+        if changed:
+            # (not demanded with a Polynomial / Rational inside: their hand-written `__eq__` equates
+            # structurally different values -- known findings `eq-not-structural:…`, reported elsewhere)
+            if not (has_own(c) or has_own(o)) and (
+                    (c == o) or (o == c) or not (c != o) or c in {o: 1} or o in {c}):
+                return Failure(f"copy-not-equal:{tag}", f"{pl}: the field differs, yet the copy equals / finds the original")
+        else:
+            if not (c == o) or not (o == c) or (c != o) or (o != c):
+                return Failure(f"copy-not-equal:{tag}", f"{pl}: the copy against the original")
+            if hash(c) != hash(o):
+                return Failure(f"copy-hash-differs:{tag}", f"{pl}: the copy against the original")
+            if c not in {o: 1} or o not in {c: 1} or c not in {o} or o not in {c} or len({c, o}) != 1:
+                return Failure(f"copy-not-interchangeable:{tag}", f"{pl}: the copy against the original")
+        # the original is what it was
+        if obj_s(o) != before or hash(o) != hash(C.sx_to_obj(loads(pl["obj"]))):
+            return Failure(f"copy-changed-original:{tag}", f"{pl}: {before} -> {obj_s(o)}")
+        return None
+
+    def shrink(self, pl):
+        if pl["how"] == "replace-field":
+            return
+        for x in instance_parts(loads(pl["obj"]))[:12]:
+            yield {**pl, "obj": dumps(x), "pre": "hash"}
+
+    def nontrivial_key(self, pl, model, impl):
+        return json.dumps(pl, sort_keys=True) if impl.startswith("(copy") else None
+
+    def stats(self, pl, mo, io, acc):
+        h = acc.setdefault("how", {})
+        k = pl["how"].rstrip("0123456789")
+        h[k] = h.get(k, 0) + 1
+        pr = acc.setdefault("prehashed", {})
+        pr[pl["pre"]] = pr.get(pl["pre"], 0) + 1
+        if io.startswith("(raises"):
+            d = acc.setdefault("no_such_copy", {})
+            name = loads(pl["obj"])[1]
+            d[name] = io
+        elif io.startswith("(copy"):
+            it = io.strip("()").split(" ")
+            if "1" in it[2][1:2]:
+                acc["copy_starts_with_cached_hash"] = acc.get("copy_starts_with_cached_hash", 0) + 1
+            if it[3] == "true":
+                acc["copy_is_original"] = acc.get("copy_is_original", 0) + 1
+
+
+def has_own(o) -> bool:
+    """a Polynomial / Rational (or subclass) instance at or below `o`"""
+    if isinstance(o, p.Expression):
+        return own_family(o) is not None or any(has_own(c) for c in C.fields_of(o))
+    if isinstance(o, (tuple, list)):
+        return any(has_own(c) for c in o)
+    if isinstance(o, Mapping):
+        return any(has_own(c) for c in o.values())
+    return False
+
+
+def carried_set(o, bits_pre):
+    """ids of the Expression nodes of `o` whose preorder slot digit in `bits_pre` is '1'"""
+    out = set()
+    pos = [0]
+
+    def rec(v):
+        if isinstance(v, (tuple, list)):
+            for c in v:
+                rec(c)
+        elif isinstance(v, Mapping):
+            for c in v.values():
+                rec(c)
+        elif isinstance(v, p.Expression):
+            i = pos[0]
+            pos[0] += 1
+            if i < len(bits_pre) and bits_pre[i] == "1":
+                out.add(id(v))
+            for c in C.fields_of(v):
+                rec(c)
+
+    rec(o)
+    return out
+
+# }}}
+
+
 # {{{ probes: known findings and repaired defects, replayed on the real code
 
 def probe_known():
@@ -1745,7 +2429,7 @@ PROP = Prop(
     lean_targets=["PV.Properties.C01"],
     extractors=[extract],
     streams=[StockTriples(), TableTriples(), OwnEqStream(), RationalInitStream(), FrozenStream(),
-             HistoryStream(), ModeStream()],
+             HistoryStream(), ModeStream(), CrossProcessStream(), CopyStream()],
     probes=[probe_known],
     trusted_base=[
         "Lean 4.33 kernel; axioms propext, Classical.choice, Quot.sound only",
